@@ -31,7 +31,8 @@ var sigHdrDefs = []sigHdrDef{
 
 // alternative values of fingerprinted strings whose character-class signature is zero or minimal
 var sigValVariants = map[sipsp.HdrT][]string{
-	sipsp.HdrVia:    {"SIP/2.0/UDP h;branch=z9hG4bKabc", "SIP/2.0/UDP h:5060;rport", "SIP/2.0/UDP h;rport;branch=z9hG4bK.a-b_c, SIP/2.0/TCP other;branch=zzz9", "SIP/2.0/UDP h;branch=z9hG4bKabc123def ,SIP/2.0/UDP o2"},
+	sipsp.HdrVia: {"SIP/2.0/UDP h;branch=z9hG4bKabc", "SIP/2.0/UDP h:5060;rport", "SIP/2.0/UDP h;rport;branch=z9hG4bK.a-b_c, SIP/2.0/TCP other;branch=zzz9", "SIP/2.0/UDP h;branch=z9hG4bKabc123def ,SIP/2.0/UDP o2",
+		"SIP/2.0/UDP a, SIP/2.0/UDP b;branch=z9hG4bKx.y-z", "SIP/2.0/UDP a ,SIP/2.0/TCP b;rport;branch=q-1"},
 	sipsp.HdrCallID: {"abc", "x@y"},
 	sipsp.HdrFrom:   {"<sip:a@b>;tag=t", "sip:a@b"},
 }
@@ -52,7 +53,13 @@ type c19Case struct {
 	Reply   bool
 	Code    string // reply status code (default 200)
 	Var     int    // variant of the fingerprinted strings (Via branch / Call-ID / From tag with an all-zero class signature)
+	PrevCut int    `json:",omitempty"` // > 0: the same object (and header array) first got that many bytes of c19PrevMsg, was abandoned and reset
+	PrevOp  string `json:",omitempty"` // "Reset" or "Init" (with the same header array)
 }
+
+// c19PrevMsg: an earlier message on the same connection; whatever part of it the object saw must not show in the
+// signature of the next request.
+var c19PrevMsg = []byte("SUBSCRIBE sip:prev@example.net SIP/2.0\r\nMax-Forwards: 69\r\nv: SIP/2.0/TCP prev.example.net;branch=z9hG4bK-PREV.1\r\nUser-Agent: prev\r\nt: <sip:prev@example.net>\r\nf: <sip:me@example.net>;tag=PREV\r\ni: PREV-CALL-ID@10.0.0.9\r\nCSeq: 4711 SUBSCRIBE\r\nm: <sip:me@10.0.0.9>\r\nl: 0\r\n\r\n")
 
 func (cs *c19Case) render() (msg []byte, nh int, want []sipsp.HdrSigId, cid, via string) {
 	var sb strings.Builder
@@ -140,8 +147,21 @@ func c19Outcome(k string) {
 var sigStrRe = regexp.MustCompile(`^$|^[0-9a-f]{1,9}I[0-9a-f]{6}F[0-9a-f]{4}V[0-9a-f]{4}$`)
 
 func parseForSig(msg []byte, capn, cut int) (*sipsp.PSIPMsg, sipsp.ErrorHdr) {
+	return parseForSigPrev(msg, capn, cut, 0, "")
+}
+
+func parseForSigPrev(msg []byte, capn, cut, prevCut int, prevOp string) (*sipsp.PSIPMsg, sipsp.ErrorHdr) {
 	m := new(sipsp.PSIPMsg)
-	m.Init(nil, mkHdrs(capn), nil)
+	hdrs := mkHdrs(capn)
+	m.Init(nil, hdrs, nil)
+	if prevCut > 0 {
+		sipsp.ParseSIPMsg(c19PrevMsg[:prevCut], 0, m, sipsp.SIPMsgSkipBodyF)
+		if prevOp == "Init" {
+			m.Init(nil, hdrs, nil)
+		} else {
+			m.Reset()
+		}
+	}
 	offs := 0
 	if cut > 0 && cut < len(msg) {
 		n, e := sipsp.ParseSIPMsg(msg[:cut], 0, m, sipsp.SIPMsgSkipBodyF)
@@ -165,7 +185,7 @@ func evalC19(cs *c19Case) (vs []*Violation) {
 	if nh == 0 {
 		return // a message without any header is rejected by the parser (empty header block): nothing to sign
 	}
-	m, e := parseForSig(msg, cs.Cap, cs.Cut)
+	m, e := parseForSigPrev(msg, cs.Cap, cs.Cut, cs.PrevCut, cs.PrevOp)
 	if e != 0 {
 		add("generated-message-parses", errName(e), fmt.Sprintf("verdict %v", e))
 		return
@@ -220,13 +240,17 @@ func evalC19(cs *c19Case) (vs []*Violation) {
 	if sig.CidSig != cs0 || sig.CidSLen != cl0 {
 		add("call-id-character-classes", "cid", fmt.Sprintf("CidSig=%#x,%d want %#x,%d", sig.CidSig, sig.CidSLen, cs0, cl0))
 	}
+	// the first Via value is the text before the first ',' (the generator's Via strings have no quoted commas)
+	if i := strings.IndexByte(via, ','); i >= 0 {
+		via = via[:i]
+	}
 	vb, _ := sipsp.GetViaBrSig([]byte(via))
 	if sig.ViaBSig != vb {
 		add("first-via-branch-character-classes", "via", fmt.Sprintf("ViaBSig=%#x want %#x", sig.ViaBSig, vb))
 	}
 	// metamorphic: equal to the base variant (no fillers, no repetition, ample capacity, one shot)
 	base := *cs
-	base.Fillers, base.Repeat, base.Cap, base.Cut = nil, -1, 40, -1
+	base.Fillers, base.Repeat, base.Cap, base.Cut, base.PrevCut = nil, -1, 40, -1, 0
 	bm, _, _, _, _ := base.render()
 	pm, be := parseForSig(bm, 40, -1)
 	if be != 0 {
@@ -236,6 +260,8 @@ func evalC19(cs *c19Case) (vs []*Violation) {
 	if bse == sipsp.ErrHdrOk && bsig != sig {
 		cl := ""
 		switch {
+		case cs.PrevCut > 0:
+			cl = "object-history"
 		case cs.Repeat >= 0:
 			cl = "repetition"
 		case len(cs.Fillers) > 0:
@@ -338,7 +364,7 @@ func checkC19(r *Run) {
 					cms = []int{0, 1<<len(ord) - 1, (oi*37 + mi*11) % (1 << len(ord)), 0x55 & (1<<len(ord) - 1)}
 				}
 				for _, cm := range cms {
-					base := c19Case{Method: meth, Order: ord, Compact: cm, Repeat: -1, Cap: 40, Cut: -1, Var: (oi + mi + cm) % 5}
+					base := c19Case{Method: meth, Order: ord, Compact: cm, Repeat: -1, Cap: 40, Cut: -1, Var: (oi + mi + cm) % 7}
 					run(c, &base)
 					if (oi+mi+cm)%r.pick(5, 2) != 0 {
 						continue
@@ -396,6 +422,20 @@ func checkC19(r *Run) {
 		r.St.merge(c0.st)
 		r.St.sample(fmt.Sprintf("%q", msg))
 	}
+	// object history: the same object and header array saw every prefix of an earlier message, then Reset / Init
+	var hist []c19Case
+	for mi, meth := range methods {
+		for _, ord := range [][]int{{6, 3, 5, 0, 2, 1, 4, 7}, {3, 6, 0}, {0, 2}, {6}} {
+			for _, cp := range []int{-1, 40, len(ord), 2} {
+				for pc := 1; pc <= len(c19PrevMsg); pc++ {
+					for _, op := range []string{"Reset", "Init"} {
+						hist = append(hist, c19Case{Method: meth, Order: ord, Compact: 0x29 & (1<<len(ord) - 1), Repeat: -1, Cap: cp, Cut: -1, Var: mi, PrevCut: pc, PrevOp: op})
+					}
+				}
+			}
+		}
+	}
+	parallelFor(r, len(hist), func(c *enumCtx, i int) { run(c, &hist[i]) })
 	defer func() {
 		c19Out.Range(func(k, v any) bool {
 			r.St.Outcomes["GetMsgSig:"+k.(string)] += atomic.LoadInt64(v.(*int64))
